@@ -122,8 +122,8 @@ fn profile(name: &str) -> RawCfg {
             names: 2,
             sizes: vec![],
             at_sizes: vec![50],
-            offs: vec![Off::Zero, Off::Mid],
-            kinds: kinds(&["write_at", "batch_write", "remove", "flush", "region_flush"]),
+            offs: vec![Off::Zero],
+            kinds: kinds(&["write_at", "batch_write", "remove", "flush"]),
             prefill: 2,
             prefill_bytes: 3000,
             ..base
